@@ -146,9 +146,9 @@ func cmdRun(args []string) int {
 		return 3
 	}
 	w.Thorough = *tier == "thorough"
-	cfg := gosym.Config{MaxIter: cd.MaxIter, QueryMs: 10000, Stubs: cd.Stubs, PanicIsViolation: true}
+	cfg := gosym.Config{MaxIter: cd.MaxIter, QueryMs: 4000, FallbackMs: 30000, Stubs: cd.Stubs, PanicIsViolation: true}
 	if w.Thorough {
-		cfg.QueryMs = 60000
+		cfg.QueryMs, cfg.FallbackMs = 10000, 120000
 	}
 	budget := cd.QuickBudget
 	if w.Thorough {
@@ -228,8 +228,8 @@ func cmdRun(args []string) int {
 	if *verbose || inconclusive {
 		printSummary(total, by, vac)
 	}
-	fmt.Printf("property=%s tier=%s harnesses=%d paths=%d done=%d obligations=%d queries=%d solver=%.1fs wall=%.1fs\n",
-		id, *tier, len(fns), total.Paths, total.PathsDone, countDischarged(total), total.Queries, total.SolverTime.Seconds(), wall.Seconds())
+	fmt.Printf("property=%s tier=%s harnesses=%d paths=%d done=%d obligations=%d queries=%d solver=%.1fs fallback(cvc5 bv-as-int)=%d/%.1fs wall=%.1fs\n",
+		id, *tier, len(fns), total.Paths, total.PathsDone, countDischarged(total), total.Queries, total.SolverTime.Seconds(), total.Fallbacks, total.FallbackTime.Seconds(), wall.Seconds())
 	if confirmed > 0 {
 		return 1
 	}
